@@ -10,6 +10,7 @@ preferred engine.
 import DafRel.Lemmas.JoinCommute
 import DafRel.Lemmas.JoinFactory
 import DafRel.Lemmas.Backtrack
+import DafRel.Lemmas.SqlTransfer
 
 namespace DafRel
 
@@ -552,5 +553,120 @@ theorem applyOp_pj_backtracked (σ : Leaves) (st : Store) (fuel : Nat) (p : PJoi
           injection h with h
           subst h
           exact ⟨p', rfl, ih2 rfl⟩
+
+/-! ### `transfer=True` -/
+
+/-- What a join that ended up in the preferred (database) engine after a transfer promises. -/
+structure JoinedIn (σ : Leaves) (p : PJoin) (t t' : Rel) : Prop where
+  wf : t'.WF
+  truthful : t'.Truthful σ
+  engine : t'.engine = p.fixed.engine
+  rows : List.Perm (sem σ t') (p.semRows (sem σ p.fixed) (sem σ t))
+  cols : ∀ x, x ∈ t'.columns ↔ x ∈ p.appliedColumns t.columns
+
+/-- **`relation.join(fixed, transfer=...)`**: as `applyOp_pj_backtracked`, for either value of `transfer`: when
+back-tracking does not finish and `transfer=True`, the target is transferred into the database and joined there. -/
+theorem applyOp_pj_any_transfer (σ : Leaves) (st : Store) (fuel : Nat) (p : PJoin) (t : Rel) (o : Opts)
+    (hpref : o.pref = none) (hbt : o.backtrack = true)
+    (hkt : t.engine.kind = .iter) (hks : p.fixed.engine.kind = .sql)
+    (gF : Good NodeInv.triv σ p.fixed)
+    (hfix0 : p.join.resolved = true → p.join.minCols.subset p.fixed.columns = true)
+    (hwf : t.WF) (htrt : t.Truthful σ) (hpo : t.prefTargetsGood NodeInv.triv σ p.fixed.engine)
+    (hnp : t.spineNoPayload st) (hts : o.transfer = true → transferSimplify p.fixed.engine t = none)
+    (res : Res) (h : applyOp st fuel (.pj p) t o = .ok res) :
+    ∃ p', p.beginApply t none = .ok (p', p.fixed.engine) ∧
+      (BTJ σ p' t (res.get t) ∨ (o.transfer = true ∧ JoinedIn σ p' t (res.get t))) := by
+  cases htr : o.transfer with
+  | false =>
+    obtain ⟨p', hb, B⟩ := applyOp_pj_backtracked σ st fuel p t o hpref hbt htr hkt hks gF hfix0 hwf htrt hpo hnp res h
+    exact ⟨p', hb, Or.inl B⟩
+  | true =>
+    cases fuel with
+    | zero => rw [applyOp] at h; cases h
+    | succ fuel =>
+      rw [applyOp] at h
+      simp only [AnyOp.beginApply, bind, Except.bind, pure, Except.pure, Except.map, hpref] at h
+      cases hb : p.beginApply t none with
+      | error e => simp [hb] at h
+      | ok v =>
+        obtain ⟨p', e⟩ := v
+        obtain ⟨f1, _, _, f4, f5, f6, f7, _⟩ := pjBeginApply_ok p t none p' e hfix0 hb
+        obtain ⟨hreq, hres'⟩ := pjBeginApply_req p t none p' e hb
+        have he : e = p.fixed.engine := f4
+        subst he
+        have hne : p.fixed.engine ≠ t.engine := fun hh => by rw [hh, hkt] at hks; cases hks
+        have hne' : (p.fixed.engine != t.engine) = true := by simpa using hne
+        simp only [hb, hne', hbt, htr, if_true] at h
+        cases hbk : backtrack st fuel (.pj p') t p.fixed.engine with
+        | error e => simp [hbk] at h
+        | ok v =>
+          obtain ⟨up, d⟩ := v
+          simp only [hbk] at h
+          obtain ⟨ih1, ih2⟩ := backtrack_pj_sound σ st p.fixed.engine hks p' (f1 ▸ gF) (by rw [f1]) hres'
+            (by rw [f1]; exact f5) fuel t up d hwf htrt hreq hpo hnp hbk
+          cases d with
+          | true =>
+            simp only [Bool.not_true, Bool.false_eq_true, if_false] at h
+            injection h with h
+            subst h
+            exact ⟨p', rfl, Or.inl (ih2 rfl)⟩
+          | false =>
+            have := ih1 rfl
+            subst this
+            simp only [Bool.not_false, if_true, Res.get] at h
+            cases htt : transferTo st fuel p.fixed.engine t with
+            | error e => simp [htt] at h
+            | ok r1 =>
+              simp only [htt] at h
+              obtain ⟨s1, c1, w1, t1, e1, _, g1⟩ := transferTo_sql_sound σ st fuel p.fixed.engine t r1 hwf htrt
+                (fun hq => by rw [hkt] at hq; cases hq) (hts htr) htt
+              have g1 := g1 hks
+              have e1 := e1 (fun hh => hne hh.symm)
+              cases r1 with
+              | same => exact absurd e1 (fun hh => hne hh.symm)
+              | new x =>
+                simp only [Res.get] at s1 c1 w1 t1 e1 g1 h
+                have hsub : ∀ a : Cols, a.subset t.columns = true → a.subset x.columns = true := fun a ha =>
+                  (Cols.subset_iff _ _).mpr (fun u hu => (c1 u).mpr ((Cols.subset_iff _ _).mp ha u hu))
+                have hcl : p'.join.minCols.subset (p'.lhs x).columns = true := by
+                  unfold PJoin.lhs; split
+                  · rw [f1]; exact f5
+                  · exact hsub _ f6
+                have hcr : p'.join.minCols.subset (p'.rhs x).columns = true := by
+                  unfold PJoin.rhs; split
+                  · exact hsub _ f6
+                  · rw [f1]; exact f5
+                have hp : p'.join.pred.columnsRequired.subset ((p'.lhs x).columns.union (p'.rhs x).columns) = true := by
+                  refine (Cols.subset_iff _ _).mpr fun u hu => ?_
+                  have := (Cols.mem_union _ _ _).mp ((Cols.subset_iff _ _).mp f7 u hu)
+                  have this' : u ∈ p.fixed.columns ∨ u ∈ x.columns := this.imp id (fun h => (c1 u).mpr h)
+                  unfold PJoin.lhs PJoin.rhs
+                  rw [f1]
+                  split
+                  · exact (Cols.mem_union _ _ _).mpr this'
+                  · exact (Cols.mem_union _ _ _).mpr this'.symm
+                cases happ : appendUnary st fuel (.pj p') x with
+                | error e => simp [happ] at h
+                | ok r2 =>
+                  obtain ⟨T, hT, gT, _, semT, colT, engT⟩ :=
+                    appendUnary_pj_sound σ st fuel p' x g1 (f1 ▸ gF) hcl hcr hp r2 happ
+                  subst hT
+                  simp only [happ] at h
+                  injection h with h
+                  subst h
+                  refine ⟨p', rfl, Or.inr ⟨rfl, ⟨gT.wf, gT.truthful, ?_, ?_, ?_⟩⟩⟩
+                  · show T.engine = _
+                    rw [engT]; unfold PJoin.lhs; split
+                    · rfl
+                    · rw [f1]; exact e1
+                  · show List.Perm (sem σ T) _
+                    rw [semT]
+                    unfold PJoin.semRows PJoin.lhs PJoin.rhs
+                    split <;> simp only [s1] <;> exact List.Perm.refl _
+                  · intro u
+                    show u ∈ T.columns ↔ _
+                    rw [colT u, PJoin.mem_appliedColumns]
+                    unfold PJoin.lhs PJoin.rhs
+                    split <;> simp only [Cols.mem_union, c1 u] <;> first | exact Iff.rfl | exact Or.comm
 
 end DafRel
